@@ -319,4 +319,147 @@ theorem numbering_bijective (N : Nat) (nc : Array Nat) (oc : Array (List Nat)) (
     rw [a] at b
     simpa using b
 
+/-! ### the whole function: adjacency lists of a well-formed edge file, start node, `Cuthill()`; `SortElements` -/
+
+theorem getD_setL {α : Type} (a : Array α) (i j : Nat) (v d : α) :
+    (a.setIfInBounds i v)[j]?.getD d = if i = j ∧ i < a.size then v else a[j]?.getD d := by
+  simp only [Array.getElem?_setIfInBounds]
+  by_cases h : i = j
+  · subst h; by_cases h2 : i < a.size <;> simp [h2]
+  · simp [h]
+
+def AdjOk (N : Nat) (o : Array (List Nat)) : Prop := ∀ (a : Nat), ∀ c ∈ o[a]?.getD [], c < N
+
+theorem pushAdj_ok (N : Nat) (o : Array (List Nat)) (i v : Nat) (hv : v < N) (h : AdjOk N o) : AdjOk N (pushAdj o i v) := by
+  intro a c hc
+  unfold pushAdj at hc
+  simp only [Array.getD_eq_getD_getElem?, getD_setL] at hc
+  split at hc
+  · rename_i hia
+    rw [List.mem_append] at hc
+    rcases hc with hc | hc
+    · exact h i c hc
+    · simp at hc; omega
+  · exact h a c hc
+
+theorem ocon_ok (N : Nat) (es : List (Nat × Nat)) (hes : ∀ e ∈ es, e.1 < N ∧ e.2 < N) : AdjOk N (ocon N es) := by
+  unfold ocon
+  have base : AdjOk N (Array.replicate N ([] : List Nat)) := by
+    intro a c hc
+    simp only [Array.getElem?_replicate] at hc
+    split at hc <;> simp at hc
+  generalize Array.replicate N ([] : List Nat) = o at base
+  induction es generalizing o with
+  | nil => exact base
+  | cons e rest ih =>
+    simp only [List.foldl_cons]
+    have he := hes e List.mem_cons_self
+    exact ih (fun x hx => hes x (List.mem_cons_of_mem _ hx)) _ (pushAdj_ok N _ _ _ he.1 (pushAdj_ok N _ _ _ he.2 base))
+
+theorem sorted_ok (N : Nat) (o : Array (List Nat)) (key : Nat → Nat) (h : AdjOk N o) :
+    ∀ a, ∀ c ∈ (o.map (sortAdj key)).getD a [], c < N := by
+  intro a c hc
+  simp only [Array.getD_eq_getD_getElem?, Array.getElem?_map] at hc
+  cases ho : o[a]? with
+  | none => simp [ho] at hc
+  | some l =>
+    simp only [ho, Option.map_some, Option.getD_some] at hc
+    have : c ∈ l := (sortAdj_perm key l).mem_iff.mp hc
+    exact h a c (by simp [ho, this])
+
+theorem startLoop_lt (nc : Array Nat) (N nl : Nat) : ∀ fuel i j n0, n0 < N → startLoop nc N nl fuel i j n0 < N := by
+  intro fuel
+  induction fuel with
+  | zero => intro i j n0 h; exact h
+  | succ f ih =>
+    intro i j n0 h
+    unfold startLoop
+    split
+    · rename_i hi
+      apply ih
+      split <;> simp_all
+    · exact h
+
+/-- `Cuthill()` as a whole: for every `.edge` list over at least two nodes whose end points are node indices, the function returns,
+    every node gets a number below `N`, no two nodes the same -/
+theorem cuthill_perm (N : Nat) (es : List (Nat × Nat)) (hN : 2 ≤ N) (hes : ∀ e ∈ es, e.1 < N ∧ e.2 < N) :
+    ∃ r, cuthill N es = some r ∧ r.newnum.size = N ∧
+      (∀ (i : Nat), i < N → r.newnum[i]?.getD 0 < N) ∧
+      (∀ (i j : Nat), i < N → j < N → r.newnum[i]?.getD 0 = r.newnum[j]?.getD 0 → i = j) := by
+  have hadj := sorted_ok N (ocon N es) (fun c => (numcon N es).getD c 0) (ocon_ok N es hes)
+  have h0 : startNode (numcon N es) N es.length < N := startLoop_lt _ _ _ _ _ _ _ (by omega)
+  obtain ⟨s, hs, hsz, hall, hinj⟩ := numbering_bijective N (numcon N es) _ hadj _ hN h0
+  have val : ∀ (i : Nat) (k : Nat), s.newnum[i]?.getD none = some k → (s.newnum.map (fun o => o.getD 0))[i]?.getD 0 = k := by
+    intro i k hk
+    simp only [Array.getElem?_map]
+    cases hx : s.newnum[i]? with
+    | none => rw [hx] at hk; simp at hk
+    | some x => rw [hx] at hk; simp at hk; simp [hk]
+  obtain ⟨r, hr, hrn⟩ : ∃ r, cuthill N es = some r ∧ r.newnum = s.newnum.map (fun o => o.getD 0) := by
+    unfold cuthill
+    simp only [hs]
+    exact ⟨_, rfl, rfl⟩
+  refine ⟨r, hr, ?_, ?_, ?_⟩
+  · rw [hrn]; simp [hsz]
+  · intro i hi
+    obtain ⟨k, hk, hv⟩ := hall i hi
+    rw [hrn, val i k hv]; exact hk
+  · intro i j hi hj he
+    obtain ⟨k, _, hv⟩ := hall i hi
+    obtain ⟨k', _, hv'⟩ := hall j hj
+    rw [hrn, val i k hv, val j k' hv'] at he
+    subst he
+    exact hinj i j k hv hv'
+
+theorem swapIB_perm {α : Type} (a : Array α) (i j : Nat) : (a.swapIfInBounds i j).Perm a := by
+  rw [Array.swapIfInBounds_def]
+  split
+  · split
+    · exact Array.swap_perm _ _
+    · exact Array.Perm.refl _
+  · exact Array.Perm.refl _
+
+theorem combPass_perm (a : Array (Nat × Elem)) (gap : Nat) : (combPass a gap).1.Perm a := by
+  unfold combPass
+  generalize List.range (a.size - gap) = l
+  have : ∀ (st : Array (Nat × Elem) × Bool), st.1.Perm a →
+      (l.foldl (fun (st : Array (Nat × Elem) × Bool) j =>
+        match st.1[j]?, st.1[j + gap]? with
+        | some x, some y => if x.1 > y.1 then (st.1.swapIfInBounds j (j + gap), true) else st
+        | _, _ => st) st).1.Perm a := by
+    induction l with
+    | nil => intro st h; exact h
+    | cons j rest ih =>
+      intro st h
+      simp only [List.foldl_cons]
+      apply ih
+      split
+      · split
+        · exact (swapIB_perm _ _ _).trans h
+        · exact h
+      · exact h
+  exact this (a, false) (Array.Perm.refl _)
+
+theorem combLoop_perm : ∀ (fuel : Nat) (a : Array (Nat × Elem)) (gap : Nat), (combLoop fuel a gap).Perm a := by
+  intro fuel
+  induction fuel with
+  | zero => intro a gap; exact Array.Perm.refl _
+  | succ f ih =>
+    intro a gap
+    unfold combLoop
+    simp only []
+    split
+    · exact (ih _ _).trans (combPass_perm a _)
+    · exact combPass_perm a _
+
+/-- `SortElements` only reorders the elements (it is not a complete sort, but nothing is lost or duplicated) -/
+theorem sortElements_perm (els : List Elem) : (sortElements els).Perm els := by
+  unfold sortElements
+  simp only []
+  have h := combLoop_perm ((els.map (fun e => (score e, e))).toArray.size + 2) (els.map (fun e => (score e, e))).toArray
+    (els.map (fun e => (score e, e))).toArray.size
+  rw [Array.perm_iff_toList_perm] at h
+  have h2 := h.map (·.2)
+  simpa [List.map_map, Function.comp_def] using h2
+
 end XfemmVerif.CuthillLemmas
